@@ -6,12 +6,13 @@ def run(ctx):
     ctx.rule("R-KEY-DOM", "application callbacks and serving are dominated by key verification", floor=5)
     ctx.rule("R-ERR-XLATE", "error DM15 wakes the caller and becomes an exception naming the code; facade error constants", floor=5)
     ctx.rule("R-TIMEOUT-RAISE", "the blocking wait is bounded by the caller's timeout and raises on silence", floor=2)
-    ctx.rule("R-RESTORE", "state / subscriptions are restored on every exit, exceptional ones included", floor=4)
+    ctx.rule("R-RESTORE", "state / subscriptions are restored on every exit, exceptional ones included", floor=5)
     ctx.rule("R-SIBLING-RESET", "sibling failure branches perform the same restoring effects", floor=3)
     D.key_dom(ctx)
     D.err_xlate(ctx)
     D.timeout_raise(ctx)
     D.restore(ctx)
+    D.facade_listening(ctx)
     ctx.rule("R-IDLE-RESET", "after a failed operation the server's transaction identity is cleared (reset_query and every return to IDLE)", floor=3)
     D.idle_reset(ctx)
     ctx.rule("R-SEED-ANY", "client: a seed response is answered with the key whatever the 16-bit seed (0xFFFF included)", floor=1)
